@@ -38,6 +38,8 @@ SCENARIOS = {
     # automatically versioned functions with nested calls (each nested call is checked against the caller's declared
     # dependencies), right after another memento function was defined in the process
     "cold-diff-nested-auto": ([1, 2], [], False, 0, "auto-nested"),
+    # a cluster described by a configuration dictionary (not by backend objects), used for the first time by two threads at once
+    "cold-same-configured-cluster": ([1, 1], [], False, 0, "cfg-memory"),
 }
 
 
@@ -61,12 +63,18 @@ class Run:
             for i in pre:
                 fnmod.n0(spec(i))
         del self.events[:]
-        if kind == "memory":
+        if kind == "cfg-memory":
+            env = m.Environment(name="cfg", base_dir=self.root, repos=[m.ConfigurationRepository(name="r", clusters={
+                "fc": m.FunctionCluster(config={"name": "fc", "storage": {"type": "memory"}, "runner": {"type": "local"}})})])
+            m.Environment.set(env)
+            self.backend = None
+        elif kind == "memory":
             from twosigma.memento.storage_memory import MemoryStorageBackend
             self.backend = MemoryStorageBackend()
         else:
             self.backend = FilesystemStorageBackend(path=data, memory_cache_mb=budget / (1024.0 * 1024.0))
-        fnlib.set_env(m, self.root, {"fc": (self.backend, None)})
+        if kind != "cfg-memory":
+            fnlib.set_env(m, self.root, {"fc": (self.backend, None)})
         if warm_cache:
             for i in pre:
                 fnmod.n0(spec(i))
@@ -88,6 +96,8 @@ class Run:
             codes.add(_FilesystemDataSource._write_non_versioned_link.__code__)
         elif line_mode == "deps":
             call_files = ("memento/memento.py",)      # every function call inside memento.py is a scheduling point
+        elif line_mode == "config":
+            call_files = ("memento/configuration.py", "memento/storage.py", "memento/runner_local.py")
         elif line_mode == "memstore":
             # every source line of the in-memory backend's own methods
             from twosigma.memento.storage_memory import MemoryStorageBackend
@@ -107,7 +117,7 @@ class Run:
         sched = self.sched
         self.cache = getattr(self.backend, "_memory_cache", None)
         for attr, label in (("_memory_cache", "cache"), ("_metadata_source", "meta"), ("_data_source", "data")):
-            if line_mode in ("mutex", "links", "memstore", "deps"):
+            if line_mode in ("mutex", "links", "memstore", "deps", "config"):
                 break
             if getattr(self.backend, attr, None) is not None:
                 setattr(self.backend, attr, PointProxy(getattr(self.backend, attr), label, sched))
@@ -241,22 +251,22 @@ def run(tier, seed):
                     ("warmcache-same", 1, 10, 0, False), ("warmstore-coldcache-same", 0, 0, 25, True), ("cold-diff-tightcache", 0, 0, 15, True),
                     ("cold-same", 2, 320, 0, "mutex"), ("cold-equal-results-3-nocache", 2, 250, 0, "links"),
                     ("cold-diff-3-memstore", 1, 400, 0, "memstore"), ("cold-diff-nested-auto", 1, 300, 0, "deps"),
-                    ("warmstore-coldcache-same", 1, 260, 0, True)]
+                    ("warmstore-coldcache-same", 1, 260, 0, True), ("cold-same-configured-cluster", 1, 200, 0, "config")]
             if not gate["ok"]:      # search mode: an obligation is broken, look harder for a failing schedule
                 plan = [(n, b + 1, r * 4, rr * 4, lm) for (n, b, r, rr, lm) in plan]
         else:
-            plan = [(n, 3, 400, 0, False) for n in SCENARIOS] + [(n, 0, 0, 150, True) for n in SCENARIOS] + [(n, 2, 150, 0, "mutex") for n in ("cold-same", "cold-same-3", "mixed-3")] + [("cold-equal-results-3-nocache", 3, 1500, 0, "links"), ("cold-diff-3-memstore", 2, 3000, 0, "memstore"), ("cold-diff-nested-auto", 2, 3000, 0, "deps")]
+            plan = [(n, 3, 400, 0, False) for n in SCENARIOS] + [(n, 0, 0, 150, True) for n in SCENARIOS] + [(n, 2, 150, 0, "mutex") for n in ("cold-same", "cold-same-3", "mixed-3")] + [("cold-equal-results-3-nocache", 3, 1500, 0, "links"), ("cold-diff-3-memstore", 2, 3000, 0, "memstore"), ("cold-diff-nested-auto", 2, 3000, 0, "deps"), ("cold-same-configured-cluster", 2, 2500, 0, "config")]
         total, distinct = 0, set()
         cover = {}
         for name, bound, max_runs, random_runs, line_mode in plan:
             results, left = explore(lambda: Run(m, scratch, name, line_mode), bound, max_runs, rng, random_runs)
-            cover["%s/%s" % (name, ({"mutex": "lock-table-lines", "links": "link-writer-lines", "memstore": "memory-backend-lines", "deps": "calls-in-memento.py"}.get(line_mode, "line")) if line_mode else "call")] = {"schedules": len(results), "unexplored_prefixes_left": left,
+            cover["%s/%s" % (name, ({"mutex": "lock-table-lines", "links": "link-writer-lines", "memstore": "memory-backend-lines", "deps": "calls-in-memento.py", "config": "calls-in-configuration.py"}.get(line_mode, "line")) if line_mode else "call")] = {"schedules": len(results), "unexplored_prefixes_left": left,
                                                                        "preemption_bound": bound}
             for trace, verdicts, choices in results:
                 total += 1
                 distinct.add((name, line_mode, tuple(trace)))
                 for sig, what in verdicts:
-                    rep.violation("C09:%s:%s" % (sig, name), "scenario %s, %s granularity: %s" % (name, ({"mutex": "lock-table lines", "links": "link-writer lines", "memstore": "in-memory backend lines", "deps": "function calls inside memento.py"}.get(line_mode, "line")) if line_mode else "call", what),
+                    rep.violation("C09:%s:%s" % (sig, name), "scenario %s, %s granularity: %s" % (name, ({"mutex": "lock-table lines", "links": "link-writer lines", "memstore": "in-memory backend lines", "deps": "function calls inside memento.py", "config": "function calls inside configuration.py / storage.py / runner_local.py"}.get(line_mode, "line")) if line_mode else "call", what),
                                   {"scenario": name, "granularity": "line" if line_mode else "call", "choices": choices,
                                    "schedule(thread, point)": trace[:200]})
                 if len(rep.samples) < 3 and len(trace) > 8:
